@@ -442,46 +442,124 @@ def r5_gathering(ctx):
 
 
 # ---------------------------------------------------------------------------
-def _seq_value(e, env, mod, depth=0):
-    """tuple of string constants denoted by a list / tuple expression under env, or None"""
-    if depth > 6:
+FLAG_NAMES = {'I': 'IGNORECASE', 'M': 'MULTILINE', 'S': 'DOTALL', 'X': 'VERBOSE', 'A': 'ASCII', 'U': 'UNICODE', 'L': 'LOCALE'}
+
+
+class _Re:
+    """abstract value: a compiled pattern"""
+    def __init__(self, pattern, flags):
+        self.pattern = pattern
+        self.flags = flags
+
+    def __eq__(self, o):
+        return isinstance(o, _Re) and (self.pattern, self.flags) == (o.pattern, o.flags)
+
+    def __hash__(self):
+        return hash((self.pattern, self.flags))
+
+    def __repr__(self):
+        return '_Re(%r, %r)' % (self.pattern, sorted(self.flags))
+
+
+def _flag_value(e, env, mod):
+    """frozenset of flag names denoted by a flags expression, or None"""
+    if e is None:
+        return frozenset()
+    if isinstance(e, ast.Constant) and e.value == 0:
+        return frozenset()
+    if isinstance(e, ast.Attribute) and is_name(e.value, 're'):
+        return frozenset([FLAG_NAMES.get(e.attr, e.attr)])
+    if isinstance(e, ast.BinOp) and isinstance(e.op, ast.BitOr):
+        a, b = _flag_value(e.left, env, mod), _flag_value(e.right, env, mod)
+        return None if a is None or b is None else a | b
+    if isinstance(e, ast.Attribute) and e.attr == 'flags':
+        v = _value(e.value, env, mod)
+        return v.flags if isinstance(v, _Re) else None
+    return None
+
+
+def _value(e, env, mod, depth=0):
+    """abstract value of an expression: str, tuple of str (a list / tuple of constants), _Re, or None when not known"""
+    if depth > 24:
         return None
+    if isinstance(e, ast.Constant) and isinstance(e.value, str):
+        return e.value
     if isinstance(e, (ast.List, ast.Tuple)):
-        if all(isinstance(x, ast.Constant) and isinstance(x.value, str) for x in e.elts):
-            return tuple(x.value for x in e.elts)
-        return None
+        vs = [_value(x, env, mod, depth + 1) for x in e.elts]
+        return tuple(vs) if all(isinstance(v, str) for v in vs) else None
     if isinstance(e, ast.Name):
         if e.id in env:
-            v = env[e.id]
-            return v if isinstance(v, tuple) and (not v or v[0] != '@join') else None
+            return env[e.id] if not isinstance(env[e.id], bool) else None
         tops = [st for st in mod.tree.body if isinstance(st, ast.Assign) and len(st.targets) == 1 and is_name(st.targets[0], e.id)]
-        if len(tops) == 1:
-            return _seq_value(tops[0].value, {}, mod, depth + 1)
+        aug = [st for st in mod.tree.body if isinstance(st, ast.AugAssign) and is_name(st.target, e.id)]
+        if len(tops) == 1 and not aug:
+            return _value(tops[0].value, {}, mod, depth + 1)
         return None
     if isinstance(e, ast.BinOp) and isinstance(e.op, ast.Add):
-        a, b = _seq_value(e.left, env, mod, depth + 1), _seq_value(e.right, env, mod, depth + 1)
-        return None if a is None or b is None else a + b
-    if isinstance(e, ast.Call) and isinstance(e.func, ast.Name) and e.func.id in ('list', 'tuple') and len(e.args) == 1 and not e.keywords:
-        return _seq_value(e.args[0], env, mod, depth + 1)
+        a, b = _value(e.left, env, mod, depth + 1), _value(e.right, env, mod, depth + 1)
+        if isinstance(a, str) and isinstance(b, str):
+            return a + b
+        if isinstance(a, tuple) and isinstance(b, tuple):
+            return a + b
+        return None
+    if isinstance(e, ast.Attribute) and e.attr == 'pattern':
+        v = _value(e.value, env, mod, depth + 1)
+        return v.pattern if isinstance(v, _Re) else None
+    if isinstance(e, ast.Call):
+        fn = e.func
+        if isinstance(fn, ast.Name) and fn.id in ('list', 'tuple') and len(e.args) == 1 and not e.keywords:
+            v = _value(e.args[0], env, mod, depth + 1)
+            return v if isinstance(v, tuple) else None
+        if isinstance(fn, ast.Attribute) and fn.attr == 'join' and len(e.args) == 1:
+            sep, seq = _value(fn.value, env, mod, depth + 1), _value(e.args[0], env, mod, depth + 1)
+            if isinstance(sep, str) and isinstance(seq, tuple):
+                return sep.join(seq)
+            return None
+        if isinstance(fn, ast.Attribute) and fn.attr == 'compile' and is_name(fn.value, 're') and e.args:
+            pat = _value(e.args[0], env, mod, depth + 1)
+            fl = _flag_value(next((k.value for k in e.keywords if k.arg == 'flags'), e.args[1] if len(e.args) > 1 else None), env, mod)
+            if isinstance(pat, str) and fl is not None:
+                return _Re(pat, fl)
+            return None
     return None
 
 
-def _joined(e, env, mod):
-    """(separator, tuple) when e denotes sep.join(<sequence of constants>)"""
-    if isinstance(e, ast.Name) and isinstance(env.get(e.id), tuple) and env[e.id][:1] == ('@join',):
-        return env[e.id][1], env[e.id][2]
-    if isinstance(e, ast.Call) and isinstance(e.func, ast.Attribute) and e.func.attr == 'join' and isinstance(e.func.value, ast.Constant) \
-            and isinstance(e.func.value.value, str) and len(e.args) == 1:
-        v = _seq_value(e.args[0], env, mod)
-        if v is not None:
-            return e.func.value.value, v
-    return None
+def split_alternatives(pattern):
+    """top-level alternatives of a regular expression source"""
+    out, depth, cur, i, in_class = [], 0, '', 0, False
+    while i < len(pattern):
+        ch = pattern[i]
+        if ch == '\\' and i + 1 < len(pattern):
+            cur += pattern[i:i + 2]
+            i += 2
+            continue
+        if in_class:
+            in_class = ch != ']'
+        elif ch == '[':
+            in_class = True
+        elif ch == '(':
+            depth += 1
+        elif ch == ')':
+            depth -= 1
+        elif ch == '|' and depth == 0:
+            out.append(cur)
+            cur = ''
+            i += 1
+            continue
+        cur += ch
+        i += 1
+    out.append(cur)
+    return tuple(out)
+
+
+RE_METHODS = ('match', 'search', 'fullmatch', 'findall', 'finditer')
 
 
 def disable_pattern_sets(ctx):
     """the marker patterns DocTest.is_disabled applies, separately for the native run (pytest flag false) and the plugin (true):
-    a path-sensitive walk of its flow graph that tracks lists / tuples of string constants through assignment, +, += and extend.
-    -> (f, {flag: [(call node, call, separator, patterns)]})"""
+    a path-sensitive walk of its flow graph that evaluates strings, lists / tuples of string constants and compiled patterns through
+    assignment, +, +=, extend, join, re.compile and module-level constants.
+    -> (f, {flag: [applications]}) with application = dict(node, call, method, pattern, alts, flags, subject)"""
     from collections import deque
     f = ctx.func('xdoctest.doctest_example.DocTest.is_disabled')
     g = ctx.cfg(f)
@@ -502,19 +580,28 @@ def disable_pattern_sets(ctx):
             env = dict(envt)
             if not n.dup:
                 for c in node_calls(n):
-                    if isinstance(c.func, ast.Attribute) and is_name(c.func.value, 're') and c.func.attr in ('match', 'search', 'fullmatch', 'findall', 'finditer') and c.args:
-                        j = _joined(c.args[0], env, mod)
-                        need(j is not None, 'C10.R6: the pattern applied by %s is not a join of constant marker patterns' % ctx.src(c, 80))
-                        found.append((n, c, j[0], j[1]))
+                    if not (isinstance(c.func, ast.Attribute) and c.func.attr in RE_METHODS):
+                        continue
+                    if is_name(c.func.value, 're') and c.args:
+                        pat = _value(c.args[0], env, mod)
+                        fl = _flag_value(next((k.value for k in c.keywords if k.arg == 'flags'), c.args[2] if len(c.args) > 2 else None), env, mod)
+                        subj = c.args[1] if len(c.args) > 1 else None
+                    else:
+                        rv = _value(c.func.value, env, mod)
+                        if not isinstance(rv, _Re):
+                            if c.func.attr in ('match', 'search', 'fullmatch'):
+                                need(False, 'C10.R6: the pattern object applied by %s is not known' % ctx.src(c, 80))
+                            continue
+                        pat, fl = rv.pattern, rv.flags
+                        subj = c.args[0] if c.args else None
+                    need(isinstance(pat, str) and fl is not None, 'C10.R6: the pattern applied by %s is not built from constant marker patterns' % ctx.src(c, 80))
+                    found.append({'node': n, 'call': c, 'method': c.func.attr, 'pattern': pat, 'alts': split_alternatives(pat), 'flags': fl, 'subject': subj})
             if n.kind == 'stmt':
                 st = n.ast
                 if isinstance(st, ast.Assign) and len(st.targets) == 1 and isinstance(st.targets[0], ast.Name):
                     nm = st.targets[0].id
-                    v = _seq_value(st.value, env, mod)
-                    if v is None:
-                        j = _joined(st.value, env, mod)
-                        v = ('@join', j[0], j[1]) if j is not None else None
-                    if v is None and isinstance(st.value, ast.Constant):
+                    v = _value(st.value, env, mod)
+                    if v is None and isinstance(st.value, ast.Constant) and isinstance(st.value.value, (bool, int, type(None))):
                         v = ('@const', st.value.value)
                     if v is None:
                         env.pop(nm, None)
@@ -522,23 +609,31 @@ def disable_pattern_sets(ctx):
                         env[nm] = v
                 elif isinstance(st, ast.AugAssign) and isinstance(st.target, ast.Name):
                     nm = st.target.id
-                    v = _seq_value(st.value, env, mod)
-                    cur = env.get(nm)
-                    if isinstance(st.op, ast.Add) and v is not None and isinstance(cur, tuple) and cur[:1] not in (('@join',), ('@const',)):
+                    v = _value(st.value, env, mod)
+                    cur = _value(ast.Name(id=nm, ctx=ast.Load()), env, mod)
+                    if isinstance(st.op, ast.Add) and ((isinstance(cur, tuple) and isinstance(v, tuple)) or (isinstance(cur, str) and isinstance(v, str))):
                         env[nm] = cur + v
                     else:
-                        env.pop(nm, None)
+                        env[nm] = ('@unknown',)
                 elif isinstance(st, ast.Expr) and isinstance(st.value, ast.Call) and isinstance(st.value.func, ast.Attribute) and isinstance(st.value.func.value, ast.Name):
                     nm, m, c = st.value.func.value.id, st.value.func.attr, st.value
-                    cur = env.get(nm)
-                    if isinstance(cur, tuple) and cur[:1] not in (('@join',), ('@const',)):
-                        if m == 'extend' and len(c.args) == 1 and _seq_value(c.args[0], env, mod) is not None:
-                            env[nm] = cur + _seq_value(c.args[0], env, mod)
-                        elif m == 'append' and len(c.args) == 1 and isinstance(c.args[0], ast.Constant) and isinstance(c.args[0].value, str):
-                            env[nm] = cur + (c.args[0].value,)
-                        elif m in ('insert', 'remove', 'pop', 'clear', 'sort', 'reverse', 'extend', 'append'):
-                            env.pop(nm, None)
-            tenv = {k: (v[1] if isinstance(v, tuple) and v[:1] == ('@const',) else v) for k, v in env.items() if not isinstance(v, tuple) or v[:1] == ('@const',)}
+                    cur = _value(ast.Name(id=nm, ctx=ast.Load()), env, mod)
+                    if isinstance(cur, tuple) and m in ('insert', 'remove', 'pop', 'clear', 'sort', 'reverse', 'extend', 'append'):
+                        arg = _value(c.args[0], env, mod) if len(c.args) == 1 else None
+                        if m == 'extend' and isinstance(arg, tuple):
+                            env[nm] = cur + arg
+                        elif m == 'append' and isinstance(arg, str):
+                            env[nm] = cur + (arg,)
+                        else:
+                            env[nm] = ('@unknown',)
+            env = {k: (None if v == ('@unknown',) else v) for k, v in env.items()}
+            env = {k: v for k, v in env.items() if v is not None or k == flag}
+            tenv = {}
+            for k, v in env.items():
+                if isinstance(v, bool):
+                    tenv[k] = v
+                elif isinstance(v, tuple) and v[:1] == ('@const',):
+                    tenv[k] = v[1]
             nenvt = tuple(sorted(env.items(), key=repr))
             for (t, kind, tok) in n.succ:
                 if not graph.normal_only(n, t, kind, tok):
@@ -556,33 +651,31 @@ def disable_marker_anchored(ctx, rule):
     """force-disabling is decided by the FIRST line of the doctest only: the marker patterns are matched anchored at the
     start of the doctest source (re.match, or an explicit \\A / ^ without MULTILINE); a search anywhere would silently
     drop every doctest that merely mentions such a comment later on"""
-    from .. import consts
     rep = ctx.rep
     f, sets = disable_pattern_sets(ctx)
-    g = ctx.cfg(f)
-    rd = ctx.rd(f)
     recv = f.node.args.args[0].arg
-    calls = [(n, c) for n in g.nodes if not n.dup for c in node_calls(n) if isinstance(c.func, ast.Attribute) and isinstance(c.func.value, ast.Name) and c.func.value.id == 're' and
-             c.func.attr in ('match', 'search', 'fullmatch', 'findall', 'finditer')]
-    rep.floor(rule, 'pattern applications in is_disabled', len(calls), 1)
-    for (n, c) in calls:
-        subj = c.args[1] if len(c.args) > 1 else None
+    apps = {}
+    for v in sets.values():
+        for a in v:
+            apps.setdefault(id(a['call']), []).append(a)
+    rep.floor(rule, 'pattern applications in is_disabled', len(apps), 1)
+    for lst in apps.values():
+        c = lst[0]['call']
+        subj = lst[0]['subject']
         on_src = subj is not None and isinstance(subj, ast.Attribute) and subj.attr == 'docsrc' and is_name(subj.value, recv)
-        anchored = c.func.attr == 'match'
-        if c.func.attr == 'search':
+        anchored = True
+        for a in lst:
+            if a['method'] == 'match':
+                continue
             # every alternative must start with an explicit start anchor and MULTILINE must be off
-            pats = [p for v in sets.values() for (n2, c2, sep, ps) in v if c2 is c for p in ps]
-            flags = next((k.value for k in c.keywords if k.arg == 'flags'), c.args[2] if len(c.args) > 2 else None)
-            multiline = flags is not None and bool({x.attr for x in ast.walk(flags) if isinstance(x, ast.Attribute)} & {'M', 'MULTILINE'})
-            anchored = bool(pats) and all(p.startswith(('\\A', '^')) for p in pats) and not multiline
+            if not (a['method'] == 'search' and all(p.startswith(('\\A', '^')) for p in a['alts']) and ('MULTILINE' not in a['flags'] or all(p.startswith('\\A') for p in a['alts']))):
+                anchored = False
         rep.ob(rule, ctx.loc(f, c), ctx.src(c, 100), anchored and on_src,
                'the markers are matched at the very start of the doctest source' if anchored and on_src else
                ('the disable markers are searched anywhere in the doctest source: a doctest that only mentions `# SCRIPT`, `# FAILING`, ... in a later line is force-disabled, '
                 'i.e. never run by `all` and missing from the tallies' if on_src else 'the markers are not matched against the doctest source'), anchor=f.qualname)
     # first alternatives start with the primary prompt
-    pats = sorted({p for v in sets.values() for (n2, c2, sep, ps) in v for p in ps})
-    seps = {sep for v in sets.values() for (n2, c2, sep, ps) in v}
-    need(seps == {'|'}, 'C10.R6: the marker patterns are not joined as alternatives')
+    pats = sorted({p for v in sets.values() for a in v for p in a['alts']})
     ok = bool(pats) and all(p.lstrip('\\A^').startswith('>>>') for p in pats)
     rep.ob(rule, ctx.loc(f, f.node), 'every marker pattern starts with the prompt', ok, '%d pattern(s)' % len(pats), nontrivial=False, anchor=f.qualname)
 
